@@ -69,8 +69,25 @@ def synced_summary(facts, R, C, need_last_seen=False, exits=None):
     return ok_all
 
 
+def _handle_field(facts):
+    """(field, open variant, closed variant) of TempFile's handle: `file: Option<File>` on the reference tree (Some / None), or a
+    private two-variant enum with one File-carrying variant (`handle: TempHandle::{Open(File), Closed}`)"""
+    for f_ in facts.adts[TF]["variants"][0]["fields"]:
+        ty = f_.get("ty") or ""
+        if "std::fs::File" in ty and ty.startswith("std::option::Option<"):
+            return f_["name"], "Some", "None"
+        ea = facts.adts.get(ty)
+        if ea is not None and ea.get("kind") == "enum" and len(ea.get("variants") or []) == 2:
+            opens = [v_["name"] for v_ in ea["variants"] if any("std::fs::File" in (x_.get("ty") or "") for x_ in v_.get("fields", []))]
+            closed = [v_["name"] for v_ in ea["variants"] if not v_.get("fields")]
+            if len(opens) == 1 and len(closed) == 1:
+                return f_["name"], opens[0], closed[0]
+    return "file", "Some", "None"
+
+
 def run(facts, R):
     vs_bodies = [b for b in facts.bodies.values() if b.path.startswith(VS)]
+    HF, H_OPEN, H_CLOSED = _handle_field(facts)
 
     # ---------------- who-may-publish (A4) -----------------------------------------------------------
     n_rename = n_create = 0
@@ -132,7 +149,7 @@ def run(facts, R):
     fw_allowed = {TF + "::commit": "publishes, then there is nothing to clean", "<%s as std::ops::Drop>::drop" % TF: "the cleanup itself",
                   TF + "::file_mut": "hands out the handle for writing", TF + "::create": "constructor"}
     n_fw = 0
-    for w in field_writes(facts, TF, "file"):
+    for w in field_writes(facts, TF, HF):
         n_fw += 1
         owner = w["body"].path
         R.check(owner in fw_allowed, "who-may-publish", owner, "only commit and Drop empty the temp-file guard",
@@ -214,22 +231,23 @@ def run(facts, R):
             R.check(okc, "who-may-publish", C.path, "create(captured tmp_path)", "consume closure does not create exactly the captured temp path", C.span)
             # the Ok tuple carries that guard
             for ei, ej, es in ok_exits(C):
-                v = cs.rvalue(es["rv"])
-                payload = dict(v[3])["0"]
-                # the payload is a tuple or a small struct; exactly one of its fields is the guard made by TempFile::create here,
-                # and that is the field the caller commits
-                def _is_guard(x):
-                    for _ in range(4):
-                        if x[0] == "field" and x[2] == "0" and x[1][0] == "variant" and x[1][2] in ("Continue", "Ok") :
-                            x = x[1][1]
-                            if is_call(x, "branch") and x[2]:
-                                x = x[2][0]
-                        else:
-                            break
-                    return is_call(x, TF + "::create")
-                gfields = [k for k, x in payload[3] if _is_guard(x)] if payload[0] == "agg" else []
-                okg = len(gfields) == 1 and g[0] == "field" and g[2] == gfields[0]
-                R.check(okg, "commit-order", C.path, "Ok carries the guard it filled", "Ok(%s); the caller commits %s" % (render(v)[:160], render(g)[-60:]), es.get("span"))
+              from analysis.sym import split_rows as _sr
+              for _, v in ((_sr(cs, ei, ej, es["rv"]) if getattr(C, "changed", False) else None) or [({}, cs.rvalue(es["rv"]))]):
+                  payload = dict(v[3])["0"]
+                  # the payload is a tuple or a small struct; exactly one of its fields is the guard made by TempFile::create here,
+                  # and that is the field the caller commits
+                  def _is_guard(x):
+                      for _ in range(4):
+                          if x[0] == "field" and x[2] == "0" and x[1][0] == "variant" and x[1][2] in ("Continue", "Ok") :
+                              x = x[1][1]
+                              if is_call(x, "branch") and x[2]:
+                                  x = x[2][0]
+                          else:
+                              break
+                      return is_call(x, TF + "::create")
+                  gfields = [k for k, x in payload[3] if _is_guard(x)] if payload[0] == "agg" else []
+                  okg = len(gfields) == 1 and g[0] == "field" and g[2] == gfields[0]
+                  R.check(okg, "commit-order", C.path, "Ok carries the guard it filled", "Ok(%s); the caller commits %s" % (render(v)[:160], render(g)[-60:]), es.get("span"))
             summaries[cdef] = synced_summary(facts, R, C)
             # commit control-dependent on the pull's Ok
             on_ok = ok_fact(fs, lambda e: any(is_call(x, VS + "pull_consume", VS + "pull_consume_async") for x in walk(e)))
@@ -288,9 +306,9 @@ def run(facts, R):
     for i, t in rm:
         a = ds.op(t["args"][0])
         fs = facts_at(dp, ds, facts, i)
-        only_open = any((f["val"] is True and is_call(f["expr"], "is_some") and f["expr"][2][0][0] == "field" and f["expr"][2][0][2] == "file") or
-                        (f["val"] == "Some" and f["expr"][0] == "field" and f["expr"][2] == "file") or
-                        (f["val"] == "Some" and is_call(f["expr"], "take") and f["expr"][2] and f["expr"][2][0][0] == "field" and f["expr"][2][0][2] == "file") for f in fs)
+        only_open = any((f["val"] is True and is_call(f["expr"], "is_some") and f["expr"][2][0][0] == "field" and f["expr"][2][0][2] == HF) or
+                        (f["val"] == H_OPEN and f["expr"][0] == "field" and f["expr"][2] == HF) or
+                        (f["val"] == H_OPEN and is_call(f["expr"], "take", "replace") and f["expr"][2] and f["expr"][2][0][0] == "field" and f["expr"][2][0][2] == HF) for f in fs)
         R.check(a[0] == "field" and a[2] == "path" and only_open, "tempfile-raii", dp.path, "remove(self.path) iff handle open",
                 "Drop removes %s under %s" % (render(a), texts(fs)), t.get("span"), "remove_file(self.path) under file.is_some()")
     # commit: Err arm removes; Ok arm re-points path (so Drop cannot remove the published file) and handle is closed first
@@ -312,13 +330,19 @@ def run(facts, R):
             R.check(own, "tempfile-raii", cm.path, "commit touches the destination only through rename",
                     "commit calls %s(%s): the destination is modified outside the atomic rename, so a publish that fails afterwards has already destroyed the previous file"
                     % (nm.rsplit("::", 1)[-1], render(a)[:80]), t.get("span"), "%s(self.path)" % nm.rsplit("::", 1)[-1])
-    closes = [(w["bb"], w["idx"]) for w in field_writes(facts, TF, "file") if w["body"] is cm and w["kind"] == "store"
-              and csym.rvalue(w["rv"])[0] == "agg" and csym.rvalue(w["rv"])[2] == "None"]
+    closes = [(w["bb"], w["idx"]) for w in field_writes(facts, TF, HF) if w["body"] is cm and w["kind"] == "store"
+              and csym.rvalue(w["rv"])[0] == "agg" and csym.rvalue(w["rv"])[2] == H_CLOSED]
     # Option::take(&mut self.file) also leaves None behind (and hands the File out to be dropped)
     for i, t in cm.calls():
         if t["callee"]["name"] == "take" and "Option" in t["callee"]["path"] and t["args"]:
             a = csym.op(t["args"][0])
-            if a[0] == "field" and a[2] == "file":
+            if a[0] == "field" and a[2] == HF:
+                closes.append(term_pt(cm, i))
+        if t["callee"]["name"] == "replace" and "mem" in t["callee"]["path"] and len(t["args"]) == 2:
+            # mem::replace(&mut self.handle, Closed)
+            a = csym.op(t["args"][0])
+            v2 = csym.op(t["args"][1])
+            if a[0] == "field" and a[2] == HF and v2[0] == "agg" and v2[2] == H_CLOSED:
                 closes.append(term_pt(cm, i))
     ren = [term_pt(cm, i) for i, t in cm.calls() if callee_matches(t["callee"], "std::fs::rename")]
     R.check(closes and ren and must_cross(cm, [(0, 0)], ren, closes, after_start=False) is None, "tempfile-raii", cm.path, "handle closed before rename",
